@@ -215,6 +215,10 @@ class SymReal(float):
             r = z3.RealVal(1)
             for _ in range(k): r = r * a.t
             return SymReal(r)
+        if isinstance(k, int) and not isinstance(k, SymInt) and -4 <= k < 0:
+            r = z3.RealVal(1)
+            for _ in range(-k): r = r * a.t
+            return SymReal(z3.RealVal(1) / r)      # C-level pow: a zero base gives inf, not an exception
         if k == 0.5: return sym_sqrt(a)
         raise NotImplementedError('SymReal ** %r' % (k,))
     def __rpow__(a, b): raise NotImplementedError('x ** SymReal')
